@@ -18,6 +18,10 @@ import (
 	"github.com/nsqio/nsq/internal/version"
 )
 
+// maxIdentifyBodySize bounds the IDENTIFY body (a small JSON document) so that a
+// bogus size field cannot make the daemon allocate an arbitrary amount of memory
+const maxIdentifyBodySize = 1024 * 1024
+
 type LookupProtocolV1 struct {
 	nsqlookupd *NSQLookupd
 }
@@ -212,6 +216,16 @@ func (p *LookupProtocolV1) IDENTIFY(client *ClientV1, reader *bufio.Reader, para
 	err = binary.Read(reader, binary.BigEndian, &bodyLen)
 	if err != nil {
 		return nil, protocol.NewFatalClientErr(err, "E_BAD_BODY", "IDENTIFY failed to read body size")
+	}
+
+	if bodyLen <= 0 {
+		return nil, protocol.NewFatalClientErr(nil, "E_BAD_BODY",
+			fmt.Sprintf("IDENTIFY invalid body size %d", bodyLen))
+	}
+
+	if bodyLen > maxIdentifyBodySize {
+		return nil, protocol.NewFatalClientErr(nil, "E_BAD_BODY",
+			fmt.Sprintf("IDENTIFY body too big %d > %d", bodyLen, maxIdentifyBodySize))
 	}
 
 	body := make([]byte, bodyLen)
